@@ -262,12 +262,19 @@ class WsgiEdge(EdgeServer, WsgiServer):
 
     def _enqueue_envelope(self, env):
         results = self.handoff(env)
-        if isinstance(results[0][1], QueueError):
+        # Queue policies may have split the message: it is only accepted if
+        # every one of the resulting envelopes was.
+        failure = results[0][1]
+        for _, result in results:
+            if isinstance(result, (QueueError, RelayError)):
+                failure = result
+                break
+        if isinstance(failure, QueueError):
             default_reply = Reply('451', '4.3.0 Error queuing message')
-            reply = getattr(results[0][1], 'reply', default_reply)
+            reply = getattr(failure, 'reply', default_reply)
             raise _build_http_response(reply)
-        elif isinstance(results[0][1], RelayError):
-            relay_reply = results[0][1].reply
+        elif isinstance(failure, RelayError):
+            relay_reply = failure.reply
             raise _build_http_response(relay_reply)
         reply = Reply('250', '2.6.0 Message accepted for delivery')
         raise _build_http_response(reply)
